@@ -27,7 +27,7 @@ def CT(name, harness, entry, functions, object_bits=None, **kw):
     u = U("C06." + name, ["C06"], "harness/C06/" + harness, entry, branch=True, functions=functions, **kw)
     u.object_bits = object_bits
     return u
-LEN = dict(unwind=194, defs=["CT_MAX=256"], closed_by="public len <= 192 fully unwound, unwinding assertions prove the bound (all call sites in src/ pass constants <= 162)")
+LEN = dict(unwind=194, closed_by="public len <= 192 fully unwound, unwinding assertions prove the bound (all call sites in src/ pass constants <= 162)")
 SCALAR_BASIC = ["secp256k1_scalar_" + f for f in "cmov cond_negate negate add cadd_bit half set_b32 set_b32_seckey get_b32 is_zero is_one is_even is_high eq check_overflow reduce get_bits_limb32 clear".split()]
 FE_BASIC = ["secp256k1_fe_" + f for f in "cmov storage_cmov normalize normalize_weak normalizes_to_zero negate add mul_int add_int half to_storage from_storage is_odd is_zero equal get_b32 set_b32_mod set_b32_limit clear".split()]
 GROUP_BASIC = ["secp256k1_ge_storage_cmov", "secp256k1_gej_cmov", "secp256k1_ge_to_storage", "secp256k1_ge_from_storage", "secp256k1_gej_set_ge", "secp256k1_ge_neg", "secp256k1_gej_neg", "secp256k1_gej_rescale", "secp256k1_ge_mul_lambda", "secp256k1_ge_clear", "secp256k1_gej_clear"]
@@ -75,17 +75,17 @@ UNITS = [
        note="every constant-time callee real; public point; precomputation as in C06.ecmult_const"),
     # --- hashing over secret data ---
     CT("sha256_write", "sha256.c", "h_ct_sha256_write", ["secp256k1_sha256_write", "secp256k1_sha256_transform", "secp256k1_sha256_transform_impl"],
-       unwind=6, defs=["CT_MAX=512"], closed_by="public len <= 200 (<= 3 direct blocks) unwound; unwinding assertions prove the bound",
+       unwind=6, closed_by="public len <= 200 (<= 3 direct blocks) unwound; unwinding assertions prove the bound",
        note="secret: data, state, buffer; public: len, byte counter (both symbolic)"),
-    CT("sha256_finalize", "sha256.c", "h_ct_sha256_finalize", ["secp256k1_sha256_finalize", "secp256k1_sha256_write"], unwind=10, defs=["CT_MAX=256"],
+    CT("sha256_finalize", "sha256.c", "h_ct_sha256_finalize", ["secp256k1_sha256_finalize", "secp256k1_sha256_write"], unwind=10,
        tier="thorough", timeout=1200, note="secret: state, buffer; public: byte counter (fully symbolic, < 2^60)"),
-    CT("sha256_finalize_res", "sha256.c", "h_ct_sha256_finalize_res", ["secp256k1_sha256_finalize", "secp256k1_sha256_write"], unwind=66, defs=["CT_MAX=256"],
+    CT("sha256_finalize_res", "sha256.c", "h_ct_sha256_finalize_res", ["secp256k1_sha256_finalize", "secp256k1_sha256_write"], unwind=66,
        bounded="byte counter in 0..63 (all residues mod 64); unbounded unit C06.sha256_finalize is in the thorough tier",
        note="secret: state, buffer"),
     CT("hmac", "sha256.c", "h_ct_hmac", ["secp256k1_hmac_sha256_initialize", "secp256k1_hmac_sha256_write", "secp256k1_hmac_sha256_finalize"], unwind=66,
        note="concrete public key lengths 32 and 100"),
-    CT("rfc6979_64", "sha256.c", "h_ct_rfc6979", ["secp256k1_rfc6979_hmac_sha256_initialize", "secp256k1_rfc6979_hmac_sha256_generate"], unwind=66, defs=["KEYLEN=64", "CT_MAX=8192"],
+    CT("rfc6979_64", "sha256.c", "h_ct_rfc6979", ["secp256k1_rfc6979_hmac_sha256_initialize", "secp256k1_rfc6979_hmac_sha256_generate"], unwind=66, defs=["KEYLEN=64"],
        note="64 bytes of key material (ecmult_gen_blind, nonce function without extra data)"),
-    CT("rfc6979_112", "sha256.c", "h_ct_rfc6979", ["secp256k1_rfc6979_hmac_sha256_initialize", "secp256k1_rfc6979_hmac_sha256_generate"], unwind=66, defs=["KEYLEN=112", "CT_MAX=8192"],
+    CT("rfc6979_112", "sha256.c", "h_ct_rfc6979", ["secp256k1_rfc6979_hmac_sha256_initialize", "secp256k1_rfc6979_hmac_sha256_generate"], unwind=66, defs=["KEYLEN=112"],
        tier="thorough", note="112 bytes of key material (nonce function with extra data and algo16)"),
 ]
